@@ -29,7 +29,7 @@ let views tier out =
   done;
   let comp = Array.of_list !comp in
   let compn = Array.map n_of_int comp in
-  let stride = if tier = "thorough" then 1 else 12 in
+  let stride = if tier = "thorough" then 1 else 5 in   (* = prefix_stride in harness/src/bin/c13.rs *)
   let buf = Bytes.create (Array.length comp) in
   Array.iteri
     (fun k p ->
